@@ -402,7 +402,11 @@ class TimeRecurrence:
                 "Invalid type for addition: '{0}' should be Duration."
                 .format(type(other).__name__)
             )
-        if self._format_number == 1:
+        if self._duration is None:
+            # A single date-time (one repetition or a zero interval)
+            kwargs = {"start_point": self._start_point + other,
+                      "end_point": self._end_point + other}
+        elif self._format_number == 1:
             kwargs = {"start_point": self._start_point + other,
                       "end_point": self._second_point + other}
         elif self._format_number == 3:
